@@ -143,6 +143,16 @@ pub fn follow_val(s: &str, heavy: bool) {
         let _ = f.eval(&vec![Val::Int(i64::MIN); n]);
         let _ = f.eval(&vec![Val::Float(0.5f32); n]);
     }
+    // the narrowest integer type: whatever is counted or converted must fit or become an error value
+    if let Ok(f) = exmex::parse_val::<i8, f32>(s) {
+        let n = f.var_names().len();
+        let _ = f.eval(&vec![Val::Int(i8::MIN); n]);
+        let _ = f.eval(&vec![Val::Int(i8::MAX); n]);
+        let _ = f.eval(&vec![Val::Float(300.5f32); n]);
+        let long: Val<i8, f32> = Val::Array(smallvec::SmallVec::from_vec(vec![0.5f32; 130]));
+        let _ = f.eval(&vec![long.clone(); n]);
+        let _ = f.eval_vec(vec![long; n]);
+    }
 }
 
 struct Watch {
@@ -260,6 +270,24 @@ fn nested_val(rng: &mut Rng, depth: usize) -> String {
     s
 }
 
+/// tokens taken from the shipped operator tables themselves (so that every operator of the
+/// tables is driven, whatever they contain) plus operands, among them an array literal with more
+/// components than the narrowest integer type can count
+fn table_soup_tokens() -> Vec<String> {
+    use exmex::MakeOperators;
+    let mut t: Vec<String> = exmex::ValOpsFactory::<i32, f64>::make().iter().map(|o| o.repr().to_string()).collect();
+    t.extend(FloatOpsFactory::<f64>::make().iter().map(|o| o.repr().to_string()));
+    t.sort();
+    t.dedup();
+    let long = format!("[{}]", vec!["0"; 130].join(","));
+    for extra in ["(", ")", "(", ")", ",", " ", "x", "v", "1", "2", "2.5", "[1,2,3]", "[1]", "[4,5]", "0", "-1", "true"] {
+        t.push(extra.to_string());
+    }
+    t.push(long.clone());
+    t.push(long);
+    t
+}
+
 fn mutate(rng: &mut Rng, base: &str) -> String {
     let mut chars: Vec<char> = base.chars().collect();
     for _ in 0..rng.range(1, 4) {
@@ -356,6 +384,17 @@ pub fn run(ctx: &Ctx) -> i32 {
             st.class(("soup", t.len(), i % 1000));
             run_text(&t, true, w, &watch, st, if vector { "vector token soup" } else { "token soup" });
         }
+        // operator-table soup
+        let tokens = table_soup_tokens();
+        for i in 0..share(n_soup / 8, w, ctx.threads) {
+            let len = rng.range(1, 7);
+            let mut t = String::new();
+            for _ in 0..len {
+                t.push_str(rng.pick(&tokens[..]).as_str());
+            }
+            st.class(("table-soup", t.len().min(200), i % 1000));
+            run_text(&t, true, w, &watch, st, "operator-table soup");
+        }
         // long and deeply nested texts: parsing entry points on an 8 MiB stack (the default of a
         // main thread); the text in flight is written out first so that a stack overflow, which
         // kills the process, leaves a witness behind
@@ -437,12 +476,13 @@ pub fn run(ctx: &Ctx) -> i32 {
     let mut stats = stats;
     stats.max("max_slowest_single_text_microseconds", watch.slowest_us.load(Ordering::Relaxed));
     let mut report = Report::new(
-        "every text goes through ALL entry points (FlatEx::parse, parse_wo_compile, DeepEx::parse, exmex::parse::<f32>, eval_str f32/f64, parse_val i32/f64 and i64/f32, line_2_statement, line_2_statement_val) and, for each Ok, the follow-ups (eval / eval_relaxed / eval_vec / eval_iter with a correct-length slice, for Val also with hostile values, unparse, Display, the three operator listings, to_deepex / from_deepex, compile, serde round trip, operate_unary/binary, subs, partial / partial_relaxed (all modes) / partial_nth for texts of <= 80 tokens and nesting <= 20), each under catch_unwind on a 1 GiB stack. Families: ALL strings of <= 4 (quick) / <= 6 (thorough) tokens over a 14-symbol alphabet (dual operator, binary operator, unary, call-style operator, identifier, number, '.', '{', '}', '(', ')', ',', space, a multi-byte character); token soup over ~100 tokens incl. unicode, control characters, huge literals; mutations (delete/insert/replace/swap/duplicate/truncate) of a corpus of the repository's own test strings; a vector soup (arrays of length 1..5, cross, dot, length, component access) for the value-typed entry points; texts nested 15..100 levels behind the operators of the value table (`x<(x<(...))`, runs of one operator and mixtures); texts of 200..1000 tokens and nesting 30..100 whose parsing entry points run on an 8 MiB stack (the in-flight text is written to disk first, so a stack overflow leaves a witness). A hang monitor reports any single text that keeps a worker busy for minutes. distinct_nontrivial = enumerated strings + distinct (family, length, index) classes.",
+        "every text goes through ALL entry points (FlatEx::parse, parse_wo_compile, DeepEx::parse, exmex::parse::<f32>, eval_str f32/f64, parse_val i32/f64, i64/f32 and i8/f32, line_2_statement, line_2_statement_val) and, for each Ok, the follow-ups (eval / eval_relaxed / eval_vec / eval_iter with a correct-length slice, for Val also with hostile values, unparse, Display, the three operator listings, to_deepex / from_deepex, compile, serde round trip, operate_unary/binary, subs, partial / partial_relaxed (all modes) / partial_nth for texts of <= 80 tokens and nesting <= 20), each under catch_unwind on a 1 GiB stack. Families: ALL strings of <= 4 (quick) / <= 6 (thorough) tokens over a 14-symbol alphabet (dual operator, binary operator, unary, call-style operator, identifier, number, '.', '{', '}', '(', ')', ',', space, a multi-byte character); token soup over ~100 tokens incl. unicode, control characters, huge literals; mutations (delete/insert/replace/swap/duplicate/truncate) of a corpus of the repository's own test strings; a soup over the names found in the shipped operator tables at run time plus operands incl. a 130-component array literal; a vector soup (arrays of length 1..5, cross, dot, length, component access) for the value-typed entry points; texts nested 15..100 levels behind the operators of the value table (`x<(x<(...))`, runs of one operator and mixtures); texts of 200..1000 tokens and nesting 30..100 whose parsing entry points run on an 8 MiB stack (the in-flight text is written to disk first, so a stack overflow leaves a witness). A hang monitor reports any single text that keeps a worker busy for minutes. distinct_nontrivial = enumerated strings + distinct (family, length, index) classes.",
     )
     .assume("recursion limits of the deep form beyond nesting 20 / 80 tokens are out of scope for differentiation (the property says so); stack exhaustion there is not judged")
     .require("family: exhaustive short strings", 10000)
     .require("family: token soup", 10000)
     .require("family: vector token soup", 5000)
+    .require("family: operator-table soup", 5000)
     .require("texts_nested_behind_value_operators", 50)
     .require("family: mutated corpus", 10000)
     .require("texts_parsed_on_an_8MiB_stack", 100)
